@@ -322,16 +322,139 @@ class Names:
         self.extra = (list(base.extra) if base is not None else []) + list(extra)
         # filter predicates that are not regex tests (cannot be turned into a language)
         self.opaque = list(base.opaque) if base is not None else []
+        # collection stored in a dict keyed by a function of the name: one name survives per key
+        self.keyed = getattr(base, "keyed", None) if base is not None else None
 
     def conj(self):
         return RL.Conj(self.accs)
+
+
+class _Subst(ast.NodeTransformer):
+    def __init__(self, table):
+        self.table = table
+
+    def visit_Name(self, n):
+        if isinstance(n.ctx, ast.Load) and n.id in self.table:
+            return ast.parse(ast.unparse(self.table[n.id]), mode="eval").body
+        return n
+
+    def visit_NamedExpr(self, n):
+        self.table[n.target.id] = n.value
+        return self.visit(ast.parse(ast.unparse(n.value), mode="eval").body)
+
+
+def _is_empty_container(e):
+    if isinstance(e, (ast.List, ast.Dict)) and not (e.elts if isinstance(e, ast.List) else e.keys):
+        return "list" if isinstance(e, ast.List) else "dict"
+    if isinstance(e, ast.Call) and isinstance(e.func, ast.Name) and e.func.id in ("list", "dict") and not e.args and not e.keywords:
+        return e.func.id
+    return None
+
+
+def _builder_loop(fn, name, world, depth):
+    """L = []; for v in IT: [m = R.op(v)] if cond: L.append(v)      -> the names of IT that satisfy cond
+       D = {}; for v in IT: ... if cond: D[key] = v                 -> the same, but one name per key (Names.keyed)"""
+    body = fn.node.body
+    inits = [n for n in body if isinstance(n, ast.Assign) and len(n.targets) == 1 and isinstance(n.targets[0], ast.Name) and n.targets[0].id == name]
+    if len(inits) != 1 or len(fn.assignments(name)) != 1:
+        return None
+    kind = _is_empty_container(inits[0].value)
+    if kind is None:
+        return None
+    muts = []
+    for n in walk_no_nested(fn.node):
+        if kind == "list" and isinstance(n, ast.Expr) and isinstance(n.value, ast.Call) and isinstance(n.value.func, ast.Attribute) \
+                and isinstance(n.value.func.value, ast.Name) and n.value.func.value.id == name:
+            muts.append(n)
+        elif isinstance(n, (ast.Assign, ast.AugAssign, ast.Delete)):
+            for t in (n.targets if not isinstance(n, ast.AugAssign) else [n.target]):
+                if isinstance(t, ast.Subscript) and isinstance(t.value, ast.Name) and t.value.id == name:
+                    muts.append(n)
+    if len(muts) != 1:
+        return None
+    mut = muts[0]
+    loops = [l for l in body if isinstance(l, ast.For) and any(x is mut for x in ast.walk(l))]
+    if len(loops) != 1 or not isinstance(loops[0].target, ast.Name) or loops[0].orelse or body.index(loops[0]) < body.index(inits[0]):
+        return None
+    loop = loops[0]
+    var = loop.target.id
+    if any(isinstance(x, (ast.Break, ast.Continue, ast.Return, ast.Try, ast.While)) for x in ast.walk(loop)):
+        return None
+    table, conds, block = {}, [], loop.body
+    while True:
+        stmts = [b for b in block if not (isinstance(b, ast.Expr) and isinstance(b.value, ast.Constant))]
+        i = 0
+        while i < len(stmts) - 1 and isinstance(stmts[i], ast.Assign) and len(stmts[i].targets) == 1 and isinstance(stmts[i].targets[0], ast.Name) \
+                and stmts[i].targets[0].id not in (var, name):
+            table[stmts[i].targets[0].id] = stmts[i].value
+            i += 1
+        rest = stmts[i:]
+        if len(rest) == 1 and rest[0] is mut:
+            break
+        if len(rest) == 1 and isinstance(rest[0], ast.If) and not rest[0].orelse:
+            conds.append(rest[0].test)
+            block = rest[0].body
+            continue
+        return None
+    if kind == "list":
+        c = mut.value
+        if not (c.func.attr == "append" and len(c.args) == 1 and isinstance(c.args[0], ast.Name) and c.args[0].id == var):
+            return None
+        key = None
+    else:
+        if not (isinstance(mut, ast.Assign) and len(mut.targets) == 1 and isinstance(mut.value, ast.Name) and mut.value.id == var):
+            return None
+        key = mut.targets[0].slice
+    base = iter_lang(loop.iter, fn, world, depth + 1)
+    if not _identity_elt(base):
+        return None
+    new, opaque = [], []
+    for c in conds:
+        c2 = _Subst(table).visit(ast.parse(ast.unparse(c), mode="eval").body)
+        try:
+            new += _test_lang(c2, var, fn)
+        except AnalysisError:
+            opaque.append(c)
+    n = Names(base.accs + new, base.dropped, base, new)
+    n.opaque += opaque
+    if key is not None:
+        n.keyed = dict(key=key, table=dict(table), var=var, node=mut)
+    return n
+
+
+def _dict_values(e, fn):
+    """expression denoting the values of a local dict D (in any order): D.values(), [D[k] for k in sorted(D)], ... -> name of D"""
+    def keys_of(x):
+        while isinstance(x, ast.Call) and isinstance(x.func, ast.Name) and x.func.id in ("sorted", "list", "iter", "tuple", "reversed") and x.args:
+            x = x.args[0]
+        if isinstance(x, ast.Call) and isinstance(x.func, ast.Attribute) and x.func.attr == "keys" and not x.args:
+            x = x.func.value
+        return x.id if isinstance(x, ast.Name) else None
+    if isinstance(e, ast.Call) and isinstance(e.func, ast.Attribute) and e.func.attr == "values" and not e.args and isinstance(e.func.value, ast.Name):
+        return e.func.value.id
+    if isinstance(e, (ast.ListComp, ast.GeneratorExp)) and len(e.generators) == 1 and not e.generators[0].ifs and isinstance(e.generators[0].target, ast.Name):
+        d = keys_of(e.generators[0].iter)
+        k = e.generators[0].target.id
+        if d and isinstance(e.elt, ast.Subscript) and isinstance(e.elt.value, ast.Name) and e.elt.value.id == d \
+                and isinstance(e.elt.slice, ast.Name) and e.elt.slice.id == k:
+            return d
+    return None
 
 
 def iter_lang(e, fn, world, depth=0):
     """the collection of archive names an expression denotes"""
     if depth > 6:
         _err("%s: name-collection expression nests too deeply" % fn.qualname)
+    dv = _dict_values(e, fn)
+    if dv is not None:
+        b = _builder_loop(fn, dv, world, depth)
+        if b is not None and b.keyed is not None:
+            return b
     if isinstance(e, ast.Name):
+        if len(fn.assignments(e.id)) == 1 and fn.assignments(e.id)[0] is not None and _is_empty_container(fn.assignments(e.id)[0]) == "list":
+            b = _builder_loop(fn, e.id, world, depth)
+            if b is not None:
+                return b
         return iter_lang(fn.local(e.id), fn, world, depth + 1)
     if isinstance(e, ast.Call):
         d = dotted(e.func)
@@ -474,13 +597,152 @@ def check_language(sink, fn, names, what, node):
 
 
 # ---------------------------------------------------------------------------
+def _sample_words(acc, extra_per_class=3, slack=2, cap=4000):
+    """words of the language of an acceptor: all words up to (shortest length + slack) over a few representatives per alphabet class"""
+    alpha = RL.Alphabet([acc], [RL.ASCII_DIGIT])
+    reps = []
+    for cls in alpha.classes:
+        cands = sorted((c for a, b in cls.iv for c in range(a, min(b, a + 40) + 1)), key=RL.char_key)[:extra_per_class]
+        reps.append([chr(c) for c in cands])
+    out, level, limit, steps = [], [(acc.initial(), "")], None, 0
+    depth = 0
+    while level and (limit is None or depth <= limit) and depth < 40:
+        nxt = []
+        for st, w in level:
+            if acc.accepting(st):
+                out.append(w)
+                if limit is None:
+                    limit = depth + slack
+            for k in range(len(alpha.classes)):
+                st2 = acc.step(st, alpha, k)
+                steps += 1
+                if st2:
+                    for ch in reps[k]:
+                        nxt.append((st2, w + ch))
+        if steps > 200000 or len(nxt) > cap:
+            nxt = nxt[:cap]
+        level = nxt
+        depth += 1
+    return out
+
+
+def _eval_key(e, env):
+    """the checker's own evaluation of a key expression on one sample name (match objects come from the regex *literal*)"""
+    if isinstance(e, ast.Constant):
+        return e.value
+    if isinstance(e, ast.Name):
+        if e.id in env:
+            v = env[e.id]
+            return v() if callable(v) else v
+        raise AnalysisError("key expression uses %s" % e.id)
+    if isinstance(e, ast.BoolOp):
+        v = None
+        for x in e.values:
+            v = _eval_key(x, env)
+            if (isinstance(e.op, ast.Or) and v) or (isinstance(e.op, ast.And) and not v):
+                return v
+        return v
+    if isinstance(e, ast.Tuple):
+        return tuple(_eval_key(x, env) for x in e.elts)
+    if isinstance(e, ast.BinOp) and isinstance(e.op, (ast.Add, ast.Sub, ast.Mult)):
+        a, b = _eval_key(e.left, env), _eval_key(e.right, env)
+        try:
+            return a + b if isinstance(e.op, ast.Add) else (a - b if isinstance(e.op, ast.Sub) else a * b)
+        except TypeError:
+            raise AnalysisError("key expression %s" % ast.unparse(e))
+    if isinstance(e, ast.Subscript):
+        v = _eval_key(e.value, env)
+        if isinstance(e.slice, ast.Slice):
+            lo = _eval_key(e.slice.lower, env) if e.slice.lower else None
+            hi = _eval_key(e.slice.upper, env) if e.slice.upper else None
+            if isinstance(v, str) and e.slice.step is None:
+                return v[lo:hi]
+        else:
+            i = _eval_key(e.slice, env)
+            if isinstance(v, (str, tuple)) and isinstance(i, int):
+                try:
+                    return v[i]
+                except IndexError:
+                    raise AnalysisError("key expression %s" % ast.unparse(e))
+            if isinstance(v, re.Match) and isinstance(i, (int, str)):
+                return v[i]
+        raise AnalysisError("key expression %s" % ast.unparse(e))
+    if isinstance(e, ast.Call) and not e.keywords:
+        args = [_eval_key(a, env) for a in e.args]
+        if isinstance(e.func, ast.Name) and e.func.id in ("int", "str", "len", "abs") and len(args) == 1:
+            try:
+                return {"int": int, "str": str, "len": len, "abs": abs}[e.func.id](args[0])
+            except (TypeError, ValueError):
+                raise AnalysisError("key expression %s fails on a sample name" % ast.unparse(e))
+        if isinstance(e.func, ast.Attribute):
+            recv = _eval_key(e.func.value, env)
+            m = e.func.attr
+            if isinstance(recv, re.Match) and m in ("group", "groups", "start", "end"):
+                return getattr(recv, m)(*args)
+            if isinstance(recv, str) and m in ("lower", "upper", "strip", "lstrip", "rstrip", "zfill", "casefold", "removeprefix", "removesuffix") \
+                    and all(isinstance(a, (str, int)) for a in args):
+                return getattr(recv, m)(*args)
+    raise AnalysisError("key expression %s is outside the evaluator" % ast.unparse(e))
+
+
+def check_keyed(sink, fn, names, what):
+    """a listing kept in a dict keyed by key(name): two selected names with the same key overwrite each other"""
+    k = names.keyed
+    sink.count("keyed_listings")
+    key, var = k["key"], k["var"]
+    if isinstance(key, ast.Name) and key.id == var:
+        sink.check("dex-listing/one-per-name", "%s: dict keyed by the name itself" % fn.qualname, True, fn.qualname, "key is the name", "",
+                   detail="the dict is keyed by the entry name: no two names share a key")
+        return
+    words = _sample_words(names.conj())
+    if len(words) < 2:
+        _err("%s: cannot enumerate sample names of the selected language" % fn.qualname)
+    seen = {}
+    clash = None
+    for w in words:
+        env = {var: w}
+        for lname, lexpr in k["table"].items():
+            env[lname] = (lambda ex=lexpr, word=w: _match_value(ex, var, word, fn))
+        try:
+            kv = _eval_key(key, env)
+            hash(kv)
+        except AnalysisError as e:
+            _err("%s: %s (cannot decide whether the dict key determines the name)" % (fn.qualname, e))
+        except TypeError:
+            _err("%s: key of %s is not hashable in the evaluator" % (fn.qualname, ast.unparse(key)))
+        if kv in seen and seen[kv] != w:
+            clash = (seen[kv], w, kv)
+            break
+        seen.setdefault(kv, w)
+    if clash is None:
+        _err("%s: no two sample names share the key %s, but injectivity of the key on all selected names is not established" % (fn.qualname, ast.unparse(key)))
+    sink.check("dex-listing/one-per-name", "%s: %s keeps every selected name" % (fn.qualname, what), False, fn.qualname, k["node"],
+               "%s: `%s` stores the names under the key %s, which is the same (%r) for %r and %r -- one of the two entries is lost from the listing"
+               % (what, norm(k["node"]), ast.unparse(key), clash[2], clash[0], clash[1]), node=k["node"],
+               witness=dict(names=[clash[0], clash[1]], key=repr(clash[2])))
+
+
+def _match_value(expr, var, word, fn):
+    """value of a loop-local like `m = dexre.match(name)` on one sample name (the regex literal applied to the checker's own word)"""
+    if isinstance(expr, ast.Call) and isinstance(expr.func, ast.Attribute) and expr.func.attr in ("match", "search", "fullmatch"):
+        acc = _regex_call(expr, var, fn)
+        if acc is not None:
+            return getattr(re.compile(acc.rx.pattern, acc.rx.flags & ~re.UNICODE if isinstance(acc.rx.pattern, bytes) else acc.rx.flags), acc.op)(word)
+    raise AnalysisError("loop local %s is outside the evaluator" % ast.unparse(expr))
+
+
 def check_get_dex_names(sink, world):
     fn = world.fn("get_dex_names")
     e = _single_return(fn)
+    while isinstance(e, ast.Call) and isinstance(e.func, ast.Name) and e.func.id in WRAPPERS_SAME and len(e.args) == 1 and not e.keywords \
+            and _dict_values(e.args[0], fn) is not None:
+        e = e.args[0]
     names = iter_lang(e, fn, world)
-    if not _identity_elt(names):
+    if names.keyed is None and not _identity_elt(names):
         _err("get_dex_names: comprehension element %s is not the iterated name" % ast.unparse(names.elt))
     check_language(sink, fn, names, "DEX listing", e)
+    if names.keyed is not None:
+        check_keyed(sink, fn, names, "DEX listing")
     sink.count("functions")
 
 
@@ -670,12 +932,44 @@ class _Returned(Exception):
 class FileExec:
     """deterministic abstract execution of get_file (helpers of the class inlined) in one world"""
 
-    def __init__(self, world, fn, wname):
+    def __init__(self, world, fn, wname, preseed=None):
         self.world = world
         self.fn = fn
         self.w = wname
         self.trace = []  # decisive conditions taken
         self.reads = 0
+        # per-instance containers used as storage: attribute -> [[key term, value term], ...]
+        self.store = {a: [list(kv) for kv in kvs] for a, kvs in (preseed or {}).items()}
+        self.writes = []
+
+    @staticmethod
+    def self_attr(e):
+        """self.<attr> (not the archive) -> attr"""
+        if isinstance(e, ast.Attribute) and isinstance(e.value, ast.Name) and e.value.id == "self" and e.attr != "zip":
+            return e.attr
+        return None
+
+    def lookup(self, attr, key):
+        for k, v in self.store.get(attr, []):
+            if k == key:
+                return v
+        return None
+
+    def put(self, attr, key, val):
+        self.writes.append((attr, key, val))
+        for kv in self.store.setdefault(attr, []):
+            if kv[0] == key:
+                kv[1] = val
+                return
+        self.store[attr].append([key, val])
+
+    def entry_lookup(self, key_term, node):
+        """central-directory record of the requested name"""
+        if key_term != ("name",):
+            return UNKNOWN
+        if self.w == "absent":
+            raise _Raised("KeyError", node)
+        return ("entry",)
 
     def mro(self, name):
         if name in BUILTIN_EXC:
@@ -707,8 +1001,42 @@ class FileExec:
             return v
         if isinstance(e, ast.IfExp):
             return self.ev(e.body if self.truth(e.test, env, fn, depth) else e.orelse, env, fn, depth)
+        if isinstance(e, ast.Tuple):
+            return ("tuple",) + tuple(self.ev(x, env, fn, depth) for x in e.elts)
+        if isinstance(e, ast.Attribute):
+            v = self.ev(e.value, env, fn, depth) if not (isinstance(e.value, ast.Name) and e.value.id == "self") else UNKNOWN
+            if v == ("entry",):
+                return ("meta", e.attr)
+            return UNKNOWN
+        if isinstance(e, ast.Subscript):
+            k = self.ev(e.slice, env, fn, depth)
+            base = e.value
+            if (isinstance(base, ast.Call) and dotted(base.func) == "self.zip.infolist" and not base.args) or dotted(base) == "self.zip.NameToInfo":
+                return self.entry_lookup(k, e)
+            a = self.self_attr(base)
+            if a is not None:
+                v = self.lookup(a, k)
+                if v is None:
+                    raise _Raised("KeyError", e)
+                return v
+            return UNKNOWN
         if isinstance(e, ast.Call):
             d = dotted(e.func)
+            if d == "self.zip.getinfo" and len(e.args) == 1 and not e.keywords:
+                return self.entry_lookup(self.ev(e.args[0], env, fn, depth), e)
+            if isinstance(e.func, ast.Attribute) and self.self_attr(e.func.value) is not None and e.func.attr in ("get", "setdefault", "pop") and e.args:
+                a = self.self_attr(e.func.value)
+                k = self.ev(e.args[0], env, fn, depth)
+                v = self.lookup(a, k)
+                dflt = self.ev(e.args[1], env, fn, depth) if len(e.args) > 1 else NONE_
+                if e.func.attr == "get":
+                    return v if v is not None else dflt
+                if e.func.attr == "setdefault":
+                    if v is None:
+                        self.put(a, k, dflt)
+                        return dflt
+                    return v
+                _err("get_file: %s is outside the analysable fragment" % ast.unparse(e))
             if d == "self.zip.read":
                 self.reads += 1
                 arg = self.ev(e.args[0], env, fn, depth) if len(e.args) == 1 and not e.keywords else UNKNOWN
@@ -763,6 +1091,12 @@ class FileExec:
             return any(self.truth(v, env, fn, depth) for v in t.values)
         if isinstance(t, ast.Compare) and len(t.ops) == 1:
             op_, l, r = t.ops[0], t.left, t.comparators[0]
+            if isinstance(op_, (ast.In, ast.NotIn)) and self.self_attr(r) is not None:
+                k = self.ev(l, env, fn, depth)
+                present = self.lookup(self.self_attr(r), k) is not None
+                res = present if isinstance(op_, ast.In) else not present
+                self.trace.append("%s is %s" % (norm(t), res))
+                return res
             if isinstance(op_, (ast.In, ast.NotIn)) and self.names_expr(r, fn):
                 lv = self.ev(l, env, fn, depth)
                 if lv != ("name",):
@@ -818,8 +1152,12 @@ class FileExec:
             for t in (s.targets if isinstance(s, ast.Assign) else [s.target]):
                 if isinstance(t, ast.Name):
                     env[t.id] = v
-                elif isinstance(t, (ast.Tuple, ast.List)):
-                    _err("get_file: tuple assignment is outside the fragment")
+                elif isinstance(t, ast.Subscript) and self.self_attr(t.value) is not None:
+                    self.put(self.self_attr(t.value), self.ev(t.slice, env, fn, depth), v)
+                elif isinstance(t, ast.Attribute) and isinstance(t.value, ast.Name) and t.value.id == "self":
+                    pass  # plain attribute store: not a keyed container
+                else:
+                    _err("get_file: assignment target %s is outside the fragment" % norm(t))
         elif isinstance(s, ast.If):
             n0 = len(self.trace)
             res = self.truth(s.test, env, fn, depth)
@@ -895,8 +1233,35 @@ def check_get_file(sink, world):
     if fn.yields():
         _err("get_file is a generator (outside the fragment)")
     reads = 0
-    for wname, wdesc in WORLDS:
-        ex = FileExec(world, fn, wname)
+    worlds = [(w, d, None) for w, d in WORLDS]
+    # keyed per-instance storage written while reading an entry: does the key determine the entry?
+    probe = FileExec(world, fn, "nonempty")
+    try:
+        probe.block(fn.node.body, {p: ("name",)}, fn, 0)
+    except (_Returned, _Raised):
+        pass
+    for attr, key, val in probe.writes:
+        if val != CONTENT:
+            continue
+        leaves = []
+
+        def walk(t):
+            if t and t[0] == "tuple":
+                for x in t[1:]:
+                    walk(x)
+            else:
+                leaves.append(t)
+        walk(key)
+        if ("name",) in leaves:
+            continue  # the key contains the entry name: another name is another key
+        if all(x[0] in ("meta", "const") for x in leaves) and any(x[0] == "meta" for x in leaves):
+            meta = ", ".join(x[1] for x in leaves if x[0] == "meta")
+            worlds.append(("aliased", "the entry exists with content and another entry with the same central-directory %s was read before "
+                                      "(self.%s is keyed by that, not by the name)" % (meta, attr), {attr: [(key, WRONG)]}))
+        else:
+            _err("get_file: self.%s caches entry data under a key that this analysis cannot relate to the entry name" % attr)
+    for wname, wdesc, preseed in worlds:
+        ex = FileExec(world, fn, "nonempty" if wname == "aliased" else wname, preseed)
         env = {p: ("name",)}
         outcome = None
         try:
@@ -913,7 +1278,7 @@ def check_get_file(sink, world):
         construct = "%s [%s]" % (norm(node) if not isinstance(node, ast.FunctionDef) else "falls off the end", wname)
         if val == UNKNOWN and kind == "return":
             _err("get_file: the returned value %s is outside the analysable fragment" % norm(node))
-        if wname in ("empty", "nonempty"):
+        if wname in ("empty", "nonempty", "aliased"):
             ok = kind == "return" and val == CONTENT
             sink.check("get_file/content", "get_file when %s" % wdesc, ok, fn.qualname, construct,
                        "when %s, get_file(%s) %s instead of returning self.zip.read(%s)%s" % (wdesc, p, shown, p, why), node=node,
